@@ -16,9 +16,11 @@ package main
 //     blocks, attribute names one level down, diagnostics) with the result of
 //     the same call made alone.
 //
-// The for_each expressions of this part contain no splat: one expanded body is
-// bound to one EvalContext, and sharing it while its for_each holds a splat is
-// the separate scenario below (sharedForEachRound).
+// One expanded body is bound to one EvalContext; the library evaluates every
+// for_each in a fresh child of it, so a shared expanded body may hold splats in
+// its for_each expressions (scenario sharedForEachRound below; since round 4
+// also here, together with nested dynamic "sub" blocks over a long collection).
+// The second phase (nested.go) shares the bodies of the extracted blocks.
 
 import (
 	"encoding/json"
@@ -101,14 +103,24 @@ func genContentCfg(r *hv.Rng, prefix string, nAttr int, types []blockTy, withDyn
 			jtop[t.name] = jblocks
 		}
 		if withDyn && r.Chance(0.5) {
-			fe := r.Pick("names", "[\"p\", \"q\"]", "{ a = 1, b = 2 }", "[]")
-			jd := map[string]any{"for_each": "${" + fe + "}", "content": map[string]any{"x": "${" + t.name + ".key}", "y": "${" + t.name + ".value}"}}
+			fe := r.Pick("names", "[\"p\", \"q\"]", "{ a = 1, b = 2 }", "[]", "names[*]", "[objs[*].name[0], objs.*.name[3]]")
+			jcontent := map[string]any{"x": "${" + t.name + ".key}", "y": "${" + t.name + ".value}"}
+			jd := map[string]any{"for_each": "${" + fe + "}", "content": jcontent}
 			fmt.Fprintf(&nb, "dynamic \"%s\" {\n  for_each = %s\n", t.name, fe)
 			if t.labeled {
 				fmt.Fprintf(&nb, "  labels = [\"d${%s.key}\"]\n", t.name)
 				jd["labels"] = []any{"d${" + t.name + ".key}"}
 			}
-			fmt.Fprintf(&nb, "  content {\n    x = %s.key\n    y = %s.value\n  }\n}\n", t.name, t.name)
+			fmt.Fprintf(&nb, "  content {\n    x = %s.key\n    y = %s.value\n", t.name, t.name)
+			if r.Chance(0.45) {
+				// a nested dynamic block: its for_each is evaluated by Content on the BODY
+				// OF THE GENERATED BLOCK (second phase, nested.go)
+				sfe := r.Pick("objs[*].id", "objs.*.name", "[for i, o in objs[*].name : o if i % 7 == 0]", "[for o in objs : o.id if o.id % 9 == 0]", t.name+".value[*]", "[length(objs[*].id), "+t.name+".key]")
+				z := "[sub.value, " + t.name + ".key]"
+				fmt.Fprintf(&nb, "    dynamic \"sub\" {\n      for_each = %s\n      content {\n        z = %s\n      }\n    }\n", sfe, z)
+				jcontent["dynamic"] = map[string]any{"sub": map[string]any{"for_each": "${" + sfe + "}", "content": map[string]any{"z": "${" + z + "}"}}}
+			}
+			nb.WriteString("  }\n}\n")
 			jdyn[t.name] = jd
 		}
 	}
@@ -252,6 +264,15 @@ func safeOp(f func() string) (out string) {
 	return f()
 }
 
+// contentObjs: the long collection of the nested dynamic blocks (40 objects).
+var contentObjs = func() cty.Value {
+	var os []cty.Value
+	for i := 0; i < 40; i++ {
+		os = append(os, cty.ObjectVal(map[string]cty.Value{"id": cty.NumberIntVal(int64(i)), "name": cty.StringVal(fmt.Sprintf("o%d", i))}))
+	}
+	return cty.ListVal(os)
+}()
+
 var contentBases = []string{"native", "json", "merged", "expand-native", "expand-json", "expand-merged"}
 
 // contentRound runs one round of the content-extraction workload.
@@ -342,6 +363,7 @@ func (rn *runner) contentRound(base string, rc roundCfg) {
 	sharedCtx := &hcl.EvalContext{Variables: map[string]cty.Value{
 		"sh":    cty.StringVal("shared"),
 		"names": cty.ListVal([]cty.Value{cty.StringVal("n1"), cty.StringVal("n2"), cty.StringVal("n3")}),
+		"objs":  contentObjs,
 	}}
 	// build makes the shared bodies and the calls on them from FRESH parses: tree
 	// A carries the base calls and the goroutines' own chains and is not touched
@@ -481,6 +503,15 @@ func (rn *runner) contentRound(base string, rc roundCfg) {
 			return out
 		}, nb, rc.G, func(int) *hcl.EvalContext { return nil }, refs, stables, names, input)
 	}
+	// second phase (nested.go): the bodies of the extracted blocks (static, generated,
+	// merged, JSON) and the remaining bodies below them are shared
+	rn.nestedPhase(&nestedPlan{u: contentUniverse(sFull), what: "content-" + base, build: func() hcl.Body {
+		raw := parseRaw()
+		if raw != nil && withDyn {
+			return dynblock.Expand(raw, sharedCtx)
+		}
+		return raw
+	}}, rc, func(int) *hcl.EvalContext { return sharedCtx.NewChild() }, input)
 	if len(diffs) == 0 {
 		rep.Hist("oracle-ok")
 		rep.Hist("oracle-ok:content")
